@@ -343,6 +343,7 @@ def judge_tree(ctx: Ctx, rec: Dict[str, Any], origin: str, stats: Dict[str, int]
                        "observed": {"shown": shown, "is_complete": complete}, "why": why,
                        "expected": "ast.parse(shown) == ast.parse(input) modulo documented spellings",
                        "design_classes": classes, "model_text": model, "drift": drift,
+                       "other": huge("".join(rec.get("other") or [])), "n": rec.get("n"),
                        "key": f"rt:{origin}:{classes}:{ref_src if not classes or drift else ''}"})
     elif classes and not drift and complete:
         # the model predicts a wrong text, the real text equals the model's, and yet it parses back fine:
@@ -630,7 +631,9 @@ LAYOUT_SOURCES = ["alpha", "12345678901234", "'hello world'", "'ab\\ncd'", "alph
                   "[(aa+bb)*cc, 'it\\'s', f(x, y=[1, 2])]", "not (a or 'p\\nq')",
                   # dict / set displays: one line first, one entry per line when that does not fit
                   "{'alpha': 1, 'beta': [2, 3], 'gamma': 3}", "{'k': {'inner': aa+bb, 'other': 2}, **rest}",
-                  "f(d={'a': 1, **more, 'b': x or y})", "{1, 22, 333}", "{}"]
+                  "f(d={'a': 1, **more, 'b': x or y})", "{1, 22, 333}", "{}",
+                  # several lines, the LAST one much longer than a line: it cannot fit in what maxlines leaves
+                  "'ab\\ncdefghijklmnopqrstuvwxyz0123456789'", "['x\\ny', 'p\\nabcdefghijklmnopqrstuvw']"]
 # values whose astor rendering (comparison chain, conditional, lambda, comprehension) spans several lines: ONE _output
 # call then carries text with embedded newlines, and a non-last line may need wrapping
 LAYOUT_LONG_SOURCES = [
@@ -694,7 +697,7 @@ def gen_layout_source(rng: random.Random, depth: int) -> str:
             return name()
         if r < 0.75:
             return str(rng.choice([0, 7, 42, 123456, 98765432101234]))
-        return repr(rng.choice(["s", "two words", "l1\nl2", "q'q", "b\\s", "", "a\n\nb"]))
+        return repr(rng.choice(["s", "two words", "l1\nl2", "q'q", "b\\s", "", "a\n\nb", "l1\nsecond line that is long"]))
     g = lambda: gen_layout_source(rng, depth - 1)
     r = rng.random()
     if r < 0.25:
@@ -989,7 +992,53 @@ def run_history(ctx: Ctx, sources: List[str], trees_file: Any, fixed_ids: List[s
 
 # ----------------------------------------------------------- one object under two spellings (ExprNames.tla)
 SPELL = {"short": "Base", "dotted": "base.Base"}
-NAMES_CFG = "SPECIFICATION Spec\nCONSTRAINT Emit\nINVARIANT ShownAsWritten\n"
+NAMES_CFG = 'SPECIFICATION Spec\nCONSTANTS Mode = "spell"\nCONSTRAINT Emit\nINVARIANT ShownAsWritten\n'
+BASES_CFG = 'SPECIFICATION Spec\nCONSTANTS Mode = "bases"\nCONSTRAINT Emit\nINVARIANT ShownAsWritten\n'
+BASE_NAME = {"own": "Handler", "local": "Base", "mixin": "Mixin", "foreign": "Other"}
+
+
+def shown_bases(kinds: List[str]) -> Tuple[str, str]:
+    """(source, text shown) of `class Handler(<bases>)` in a module that imports a third-party class called Handler."""
+    from pydoctor import model
+    from pydoctor.templatewriter import pages
+    from pydoctor.stanutils import flatten
+    import html as _html
+    import re as _re
+    bases = ", ".join(BASE_NAME[k] for k in kinds)
+    user = ("from thirdparty.handlers import Handler, Other\nfrom pkg.base import Base, Mixin\n\n"
+            f"class Handler({bases}):\n    'doc'\n")
+    system = model.System()
+    system.options.verbosity = -3
+    builder = system.systemBuilder(system)
+    builder.addModuleString("", "pkg", is_package=True)
+    builder.addModuleString("class Base:\n    'doc'\nclass Mixin:\n    'doc'\n", "base", parent_name="pkg")
+    builder.addModuleString(user, "user", parent_name="pkg")
+    builder.buildModules()
+    cls = system.allobjects["pkg.user.Handler"]
+    text = _html.unescape(_re.sub(r"<[^>]*>", "", flatten(pages.format_class_signature(cls))))
+    return f"class Handler({bases}): ...", "class Handler" + text + ": ..."
+
+
+def run_bases(ctx: Ctx, stats: Dict[str, int]) -> None:
+    r = ctx.tlc("ExprNames", BASES_CFG, workers="auto", extra=["-continue"], timeout=600)
+    if r.errors or (r.rc != 0 and not r.violated):
+        raise MachineryError(f"TLC failed on ExprNames(bases): {r.errors[:3]}\n" + "\n".join(r.out.splitlines()[-25:]))
+    for rec in r.printed:
+        kinds = list(rec["order"])
+        src, shown = shown_bases(kinds)
+        ctx.traces += 1
+        stats["base_lists"] += 1
+        try:
+            same = ast.dump(ast.parse(shown)) == ast.dump(ast.parse(src))
+        except SyntaxError:
+            same = False
+        if not same:
+            stats["drift"] += 1
+            stats["violations"] += 1
+            ctx.drift_note({"bases": kinds, "model": src, "real": shown})
+            ctx.violation({"invariant": "ShownAsWritten", "origin": "bases", "bases": kinds, "input": src,
+                           "observed": {"shown": shown}, "expected": "every base written is shown, in order",
+                           "key": f"bases:{kinds.index('own') if 'own' in kinds else -1}:{len(kinds)}"})
 
 
 def run_names_history(spell: Dict[str, str], order: List[str]) -> List[Tuple[str, str, str]]:
@@ -1268,7 +1317,7 @@ def run(ctx: Ctx) -> int:
     stats = {k: 0 for k in ("seen", "drift", "design_bad", "violations", "incomplete", "necessity_checked",
                             "design_bad_but_real_ok", "strings", "layout", "layout_complete", "layout_wrapped",
                             "layout_cut", "layout_multiline_text", "segments", "segments_wrapped",
-                            "strings_html", "histories", "histories_poisoned", "regexes", "regexes_presented", "name_histories")}
+                            "strings_html", "histories", "histories_poisoned", "regexes", "regexes_presented", "name_histories", "base_lists", "annotation_pairs")}
     design_violated: List[str] = []
     # ---- inputs that do not depend on the code under test, then all TLC runs that only need those
     ntrees = 1500 if ctx.quick else 30000
@@ -1297,6 +1346,8 @@ def run(ctx: Ctx) -> int:
     pre.submit("ExprStr", strings_cfg(ctx, open_ids, fixed_ids), **ex)
     pre.submit("ExprRe", regex_cfg(ctx, open_ids, fixed_ids), **ex)
     pre.submit("ExprNames", NAMES_CFG, **ex)
+    pre.submit("ExprNames", BASES_CFG, **ex)
+    pre.submit("Expr", expr_cfg("ann2", ann_cmp, open_ids, fixed_ids), **ex)
     maxll, maxml, extra_ll = layout_bounds(ctx)
     pre.submit("ExprLayout", layout_cfg("enum", maxll, maxml, fixed_ids, extra_ll),
                env={"LAYOUT_FILE": str(ctx.scratch / "layout_trees.json")}, **ex)
@@ -1338,6 +1389,20 @@ def run(ctx: Ctx) -> int:
     for rec, real in zip(ann, shown_ann):
         judge_tree(ctx, rec, "annotation", stats, real=real)
     ctx.extra["annotations_with_quoted_part"] = len(ann)
+    # ---- the same quoted string in two annotations of one module, in both orders (the comment makes the string of
+    #      each pair unique: whatever might be shared between equal strings is shared within the pair only)
+    import re as _re
+    ann2 = tlc_cases("ann2", ann_cmp)
+    pair_sources: List[str] = []
+    for i, rec in enumerate(ann2):
+        uniq = lambda text: _re.sub(r'"([^"]*)"', lambda m: f'"{m.group(1)} #{i}"', huge(text))
+        a, b = uniq("".join(rec["ref"])), uniq("".join(rec["other"]))
+        pair_sources += [a, b] if rec["n"] == 1 else [b, a]
+    shown_pairs = shown_annotations(pair_sources)
+    for i, rec in enumerate(ann2):
+        real = shown_pairs[2 * i] if rec["n"] == 1 else shown_pairs[2 * i + 1]
+        stats["annotation_pairs"] += 1
+        judge_tree(ctx, rec, f"annotation-pair:{'first' if rec['n'] == 1 else 'second'}", stats, real=real)
     # ---- the arguments of Literal[...] stay strings, however the qualifier is bound and in whichever order the modules
     #      of the import cycle are analysed
     lit = tlc_cases("lit", d3_cmp)
@@ -1362,6 +1427,7 @@ def run(ctx: Ctx) -> int:
     run_strings(ctx, open_ids, fixed_ids, stats)
     # ---- one class named under two spellings at three sites of a module, rendered in every order (ExprNames.tla)
     run_names(ctx, stats)
+    run_bases(ctx, stats)
     # ---- re.compile(<pattern>): presented or ordinary call, same regular expression (ExprRe.tla)
     run_regex(ctx, open_ids, fixed_ids, stats)
     # ---- line length / line count: wrapping, truncation, is_complete (ExprLayout.tla)
@@ -1396,7 +1462,14 @@ def replay(ctx: Ctx, path: str) -> int:
     if w.get("invariant") == "RoundTrip" and "tree" in w:
         want = mk_ast(w["tree"])
         org = str(w.get("origin"))
-        shown, complete = (shown_annotations([w["input"]])[0] if org == "annotation"
+        def _pair() -> Tuple[str, bool]:
+            import re as _re
+            uq = lambda text: _re.sub(r'"([^"]*)"', lambda m: f'"{m.group(1)} #0"', text)
+            a, b = uq(w["input"]), uq(w["other"])
+            res = shown_annotations([a, b] if w["n"] == 1 else [b, a])
+            return res[0] if w["n"] == 1 else res[1]
+        shown, complete = (_pair() if org.startswith("annotation-pair")
+                           else shown_annotations([w["input"]])[0] if org == "annotation"
                            else shown_literal_annotations(int(org[-1]), [w["input"]])[0] if org.startswith("literal-annotation")
                            else shown_inline(mk_ast(w["tree"]))[:2])
         ok, why = same_expr(shown, want) if complete else (shown.endswith("..."), "cut without marker")
@@ -1415,6 +1488,13 @@ def replay(ctx: Ctx, path: str) -> int:
         got = literal_value(shown)
         bad = not (complete and type(got) is type(value) and got == value)
         print(f"replay: value {w['input']} shown {shown!r} ->", "still violated" if bad else "holds now")
+    elif w.get("invariant") == "ShownAsWritten" and w.get("origin") == "bases":
+        src, shown = shown_bases(w["bases"])
+        try:
+            bad = ast.dump(ast.parse(shown)) != ast.dump(ast.parse(src))
+        except SyntaxError:
+            bad = True
+        print(f"replay: {src} shown as {shown!r} ->", "still violated" if bad else "holds now")
     elif w.get("invariant") == "ShownAsWritten":
         res = run_names_history(w["spell"], w["order"])
         bad = False
